@@ -44,6 +44,7 @@ class Run(OpsMixin, CallsMixin):
         self.witnesses = []
         self.classes = {}         # class name -> id
         self.bound = {}           # spec-mode bound variables
+        self.iter_elem = {}       # address sexpr -> declared element type of an iterator
 
     # ------------------------------------------------------------------ basics
     def fresh(self, name, sort=None):
@@ -181,6 +182,15 @@ class Run(OpsMixin, CallsMixin):
         if ty in CLS or ty in self.eng.repo.classes:
             return z3.And(Value.is_VRef(v), Value.a(v) >= 0, Value.a(v) < self.alloc,
                           z3.Select(self.field('cls'), Value.a(v)) == self.class_id(ty))
+        if ty.startswith('iter[') and ty.endswith(']'):
+            a = Value.a(v)
+            self.iter_elem[z3.simplify(a).sexpr()] = ty[5:-1]
+            pos = z3.Select(self.field('gen.pos'), a)
+            n = z3.Select(self.field('gen.n'), a)
+            exc = z3.Select(self.field('gen.exc'), a)
+            return z3.And(Value.is_VRef(v), a >= 0, a < self.alloc,
+                          z3.Select(self.field('cls'), a) == self.class_id('gen'), 0 <= pos, pos <= n,
+                          0 <= exc, exc <= 1)
         if ty.startswith('tuple[') and ty.endswith(']'):
             parts = _split_top(ty[6:-1])
             l = Value.t(v)
@@ -216,6 +226,7 @@ class Run(OpsMixin, CallsMixin):
             for cl in contract.of('ghost'):
                 env[cl.extra['name']] = self.sym_param(cl.extra['name'], cl.extra['type'])
             self.frames.append(Frame(fn, rel, env, contract))
+            self.check_loop_names()
             for cl in contract.of('requires'):
                 self.assume(self.ev_spec(cl.expr))
             if not self.feasible(z3.BoolVal(True) if not self.pc else self.pc[-1]):
@@ -225,7 +236,7 @@ class Run(OpsMixin, CallsMixin):
             self.mods = []
             for cl in contract.of('modifies'):
                 for e in cl.extra['exprs']:
-                    self.mods.append(Value.a(self.ev_spec(e)))
+                    self.mods.append(Value.a(self.val(self.ev_spec_val(e))))
             self.entry_measure = None
             dec = contract.of('decreases')
             if dec:
@@ -514,6 +525,8 @@ class Run(OpsMixin, CallsMixin):
                     self.oblige(z3.BoolVal(False), 'unwind', 'unwind:%s' % spec['hdr'], st)
                     raise PathEnd()
                 n += 1
+                if spec is None and n > 12 and len(self.ch.trace) > 12:
+                    raise OutOfSubset('loop needs an invariant: %s at %s' % (loop_header(st), self.where(st)))
                 try:
                     self.exec_block(st.body)
                 except BreakSig:
